@@ -163,8 +163,8 @@ public:
 	explicit posit(char initial_value) { *this = (long long)initial_value; }
 	explicit posit(unsigned short initial_value) { *this = (long long)initial_value; }
 	explicit posit(unsigned int initial_value) { *this = (long long)initial_value; }
-	explicit posit(unsigned long int initial_value) { *this = (long long)initial_value; }
-	explicit posit(unsigned long long initial_value) { *this = (long long)initial_value; }
+	explicit posit(unsigned long int initial_value) { *this = posit((unsigned long long)initial_value); }
+	explicit posit(unsigned long long initial_value) { *this = (initial_value > 0x7FFF'FFFF'FFFF'FFFFull ? 0x7FFF'FFFF'FFFF'FFFFll : (long long)initial_value); }
 	explicit posit(float initial_value) { *this = initial_value; }
 	explicit posit(double initial_value) { *this = initial_value; }
 	explicit posit(long double initial_value) { *this = initial_value; }
